@@ -172,6 +172,7 @@ func (e *eng) Gen(r *hx.Rand, n int, tier string, prop string, out *hx.Out) {
 		}
 		// random schedule with stretches of the same actor, watches taken at random moments
 		steps := 20 + g.Intn(40)
+		contend := g.Chance(30)
 		curA := hx.Pick(g, names)
 		for s := 0; s < steps; s++ {
 			if g.Chance(35) {
@@ -182,6 +183,14 @@ func (e *eng) Gen(r *hx.Rand, n int, tier string, prop string, out *hx.Out) {
 				out.P("force %s", hx.Pick(g, names))
 			}
 			out.P("step %s", curA)
+			if contend {
+				// every actor that now waits for a held lock (table or root) really runs into it
+				for _, nm := range names {
+					if nm != curA {
+						out.P("force %s", nm)
+					}
+				}
+			}
 			if g.Chance(12) {
 				out.P("watch %d", g.Intn(ntab))
 			}
